@@ -7,8 +7,11 @@ Props/C18Reloc.lean — C18-R1 (relocation), statement level.
 
 (a) `reloc_assign_*`   : `assignAddrs`; every address moves by `D`, the address VALUES keep hint and mode.
 (b) `reloc_fixOne_*`   : `fixOne` by class: `Unmoved` (branches, PCR, no label, `label - label`) IDENTICAL;
-                         `Moved` (`label`, `label ± k`) the operand field moves by `D`.
-(c) `reloc_bytes_*`    : the emitted bytes: identical, resp. the trailing 16-bit field moves by `D`.
+                         `Moved` (`label`, `label ± k` in a 16-bit field) the operand field moves by `D`.
+    `reloc_fixFit_*`   : the same for the whole per-statement step `fixFit` = `fixOne` then `fitWidth`
+                         (`fix_addresses; fit_operand_width`).
+(c) `reloc_bytes_*`    : the emitted bytes (of the statement after `fixFit`): identical, resp. the trailing
+                         16-bit field moves by `D`.
 (d) `reloc_finish`     : `fixAll`, final symbol table, origin and name for a program all of whose statements
                          are in one of the two classes: same outcome kind, labels move by `D`, EQU unchanged.
 -/
@@ -171,12 +174,39 @@ theorem reloc_fixOne_moved (h : PW (RelocOut D) as as') {i : Nat} {s s' : Stmt}
     fixOne as' i s' = (fixOne as i s).map (fun t => (t.shiftAdditional D).setAddress s'.pkg.address) :=
   reloc_fixOne_moved' (RelocOut.addrShift h) (h.2 i s s' hs hs').1 hc
 
+/-- (b, unmoved), `fix_addresses; fit_operand_width`, general form -/
+theorem reloc_fixFit_unmoved' (h : PW (AddrShiftI D) as as') {i : Nat} {s s' : Stmt}
+    (he : s' = s.setAddress s'.pkg.address) (hc : Unmoved D as s) :
+    fixFit as' i s' = (fixFit as i s).map (·.setAddress s'.pkg.address) := by
+  have : fixFit as' i s' = fixFit as' i (s.setAddress s'.pkg.address) := by rw [← he]
+  rw [this, fixFit_setAddress, fixFit_unmoved h i hc]
+
+/-- (b, moved), `fix_addresses; fit_operand_width`, general form -/
+theorem reloc_fixFit_moved' (h : PW (AddrShift D) as as') {i : Nat} {s s' : Stmt}
+    (he : s' = s.setAddress s'.pkg.address) (hc : Moved D as s) :
+    fixFit as' i s' = (fixFit as i s).map (fun t => (t.shiftAdditional D).setAddress s'.pkg.address) := by
+  have : fixFit as' i s' = fixFit as' i (s.setAddress s'.pkg.address) := by rw [← he]
+  rw [this, fixFit_setAddress, fixFit_moved h i hc, outcome_map_map]
+
+/-- (b, unmoved) the outcome of `fix_addresses; fit_operand_width` is IDENTICAL (up to the statement's own
+address field) -/
+theorem reloc_fixFit_unmoved (h : PW (RelocOut D) as as') {i : Nat} {s s' : Stmt}
+    (hs : as[i]? = some s) (hs' : as'[i]? = some s') (hc : Unmoved D as s) :
+    fixFit as' i s' = (fixFit as i s).map (·.setAddress s'.pkg.address) :=
+  reloc_fixFit_unmoved' (RelocOut.addrShiftI h) (h.2 i s s' hs hs').1 hc
+
+/-- (b, moved) the same outcome of `fix_addresses; fit_operand_width`, the stored operand value moved by `D` -/
+theorem reloc_fixFit_moved (h : PW (RelocOut D) as as') {i : Nat} {s s' : Stmt}
+    (hs : as[i]? = some s) (hs' : as'[i]? = some s') (hc : Moved D as s) :
+    fixFit as' i s' = (fixFit as i s).map (fun t => (t.shiftAdditional D).setAddress s'.pkg.address) :=
+  reloc_fixFit_moved' (RelocOut.addrShift h) (h.2 i s s' hs hs').1 hc
+
 /-- (c, unmoved), general form -/
 theorem reloc_bytes_unmoved' (h : PW (AddrShiftI D) as as') {i : Nat} {s s' t t' : Stmt}
     (he : s' = s.setAddress s'.pkg.address) (hc : Unmoved D as s)
-    (ht : fixOne as i s = .ok t) (ht' : fixOne as' i s' = .ok t') :
+    (ht : fixFit as i s = .ok t) (ht' : fixFit as' i s' = .ok t') :
     t' = t.setAddress s'.pkg.address ∧ stmtBytes t' = stmtBytes t := by
-  rw [reloc_fixOne_unmoved' h he hc, ht] at ht'
+  rw [reloc_fixFit_unmoved' h he hc, ht] at ht'
   simp only [Outcome.map_ok, Outcome.ok.injEq] at ht'
   subst ht'
   exact ⟨rfl, rfl⟩
@@ -184,21 +214,21 @@ theorem reloc_bytes_unmoved' (h : PW (AddrShiftI D) as as') {i : Nat} {s s' t t'
 /-- (c, moved), general form -/
 theorem reloc_bytes_moved' (h : PW (AddrShift D) as as') {i : Nat} {s s' t t' : Stmt}
     (he : s' = s.setAddress s'.pkg.address) (hc : Moved D as s)
-    (ht : fixOne as i s = .ok t) (ht' : fixOne as' i s' = .ok t') {bs : Bytes} (hb : stmtBytes t = some bs) :
+    (ht : fixFit as i s = .ok t) (ht' : fixFit as' i s' = .ok t') {bs : Bytes} (hb : stmtBytes t = some bs) :
     t' = (t.shiftAdditional D).setAddress s'.pkg.address ∧
     ∃ pre x, t.pkg.additional.int? = some x ∧ x + D < 65536 ∧ bs = pre ++ [x / 256, x % 256] ∧
       stmtBytes t' = some (pre ++ [(x + D) / 256, (x + D) % 256]) := by
-  rw [reloc_fixOne_moved' h he hc, ht] at ht'
+  rw [reloc_fixFit_moved' h he hc, ht] at ht'
   simp only [Outcome.map_ok, Outcome.ok.injEq] at ht'
   subst ht'
   refine ⟨rfl, ?_⟩
   rw [stmtBytes_setAddress]
-  exact stmtBytes_shiftAdditional (fixOne_moved_wide h i hc ht) hb
+  exact stmtBytes_shiftAdditional (fixFit_moved_wide h i hc ht) hb
 
 /-- (c, unmoved) byte-for-byte identical code -/
 theorem reloc_bytes_unmoved (h : PW (RelocOut D) as as') {i : Nat} {s s' t t' : Stmt}
     (hs : as[i]? = some s) (hs' : as'[i]? = some s') (hc : Unmoved D as s)
-    (ht : fixOne as i s = .ok t) (ht' : fixOne as' i s' = .ok t') :
+    (ht : fixFit as i s = .ok t) (ht' : fixFit as' i s' = .ok t') :
     t' = t.setAddress s'.pkg.address ∧ stmtBytes t' = stmtBytes t :=
   reloc_bytes_unmoved' (RelocOut.addrShiftI h) (h.2 i s s' hs hs').1 hc ht ht'
 
@@ -206,7 +236,7 @@ theorem reloc_bytes_unmoved (h : PW (RelocOut D) as as') {i : Nat} {s s' t t' : 
 that field (opcode, post byte) are identical -/
 theorem reloc_bytes_moved (h : PW (RelocOut D) as as') {i : Nat} {s s' t t' : Stmt}
     (hs : as[i]? = some s) (hs' : as'[i]? = some s') (hc : Moved D as s)
-    (ht : fixOne as i s = .ok t) (ht' : fixOne as' i s' = .ok t') {bs : Bytes} (hb : stmtBytes t = some bs) :
+    (ht : fixFit as i s = .ok t) (ht' : fixFit as' i s' = .ok t') {bs : Bytes} (hb : stmtBytes t = some bs) :
     t' = (t.shiftAdditional D).setAddress s'.pkg.address ∧
     ∃ pre x, t.pkg.additional.int? = some x ∧ x + D < 65536 ∧ bs = pre ++ [x / 256, x % 256] ∧
       stmtBytes t' = some (pre ++ [(x + D) / 256, (x + D) % 256]) :=
@@ -220,11 +250,10 @@ section whole
 variable {D : Nat} {as as' : List Stmt}
 
 theorem fixOne_keeps {ss : List Stmt} {i : Nat} {s t : Stmt} (h : fixOne ss i s = .ok t) :
-    ∃ v, t = { s with pkg := { s.pkg with additional := v } } := by
-  rcases fixOne_out ss i s with h1 | h1 | ⟨t', h1, hv⟩
-  · rw [h1] at h; cases h
-  · rw [h1] at h; cases h
-  · rw [h1] at h; cases h; exact hv
+    ∃ v, t = { s with pkg := { s.pkg with additional := v } } := fixOne_same h
+
+theorem fixFit_keeps {ss : List Stmt} {i : Nat} {s t : Stmt} (h : fixFit ss i s = .ok t) :
+    ∃ v, t = { s with pkg := { s.pkg with additional := v } } := fixFit_same h
 
 /-- `fixAll` on a program all of whose statements are in one of the two classes: same outcome kind, and
 statement by statement `FinalRel` -/
@@ -236,13 +265,13 @@ theorem reloc_fixAll (h : PW (RelocOut D) as as')
   simp only [Nat.zero_add]
   have hrel := (h.2 j s s' hs hs').2
   rcases hcov j s hs with hc | hc
-  · refine OutRel.of_eq_map (reloc_fixOne_unmoved h hs hs' hc) ?_
+  · refine OutRel.of_eq_map (reloc_fixFit_unmoved h hs hs' hc) ?_
     intro t ht
-    obtain ⟨v, rfl⟩ := fixOne_keeps ht
+    obtain ⟨v, rfl⟩ := fixFit_keeps ht
     exact ⟨.inl rfl, rfl, hrel.2⟩
-  · refine OutRel.of_eq_map (reloc_fixOne_moved h hs hs' hc) ?_
+  · refine OutRel.of_eq_map (reloc_fixFit_moved h hs hs' hc) ?_
     intro t ht
-    obtain ⟨v, rfl⟩ := fixOne_keeps ht
+    obtain ⟨v, rfl⟩ := fixFit_keeps ht
     exact ⟨.inr rfl, rfl, hrel.2⟩
 
 theorem FinalRel.row_addr {t t' : Stmt} (h : FinalRel D t t') :
